@@ -160,6 +160,61 @@ def rule_pasttotal(ctx, prop: str) -> RuleResult:
     return res
 
 
+def _sre():
+    try:
+        import re._parser as sre_parse  # py >= 3.11
+    except Exception:  # pragma: no cover
+        import sre_parse
+    return sre_parse
+
+
+def _space_after_hash(pattern: str) -> Optional[bool]:
+    """does the expression allow white space between a literal `#` and the digits that follow?
+    None: no `#` followed by digits found"""
+    items = list(_sre().parse(pattern))
+
+    def flat(items):
+        out = []
+        for op, av in items:
+            opn = str(op)
+            if opn == "SUBPATTERN":
+                out.extend(flat(av[3]))
+            elif opn in ("MAX_REPEAT", "MIN_REPEAT"):
+                lo_, hi_, sub = av
+                inner = flat(sub)
+                out.append(("REPEAT", lo_, inner))
+            else:
+                out.append((opn, av))
+        return out
+
+    def is_space(x) -> bool:
+        return x[0] == "IN" and any(str(o) == "CATEGORY" and "SPACE" in str(a) and "NOT" not in str(a) for o, a in x[1])
+
+    def is_digits(x) -> bool:
+        if x[0] == "REPEAT":
+            return any(is_digits(y) for y in x[2])
+        if x[0] == "IN":
+            return any((str(o) == "CATEGORY" and "DIGIT" in str(a) and "NOT" not in str(a)) or (str(o) == "RANGE" and a == (48, 57)) for o, a in x[1])
+        return False
+
+    def scan(seq) -> Optional[bool]:
+        for i, x in enumerate(seq):
+            if x[0] == "LITERAL" and x[1] == ord("#"):
+                rest = seq[i + 1:]
+                if rest and rest[0][0] == "REPEAT" and rest[0][1] == 0 and any(is_space(y) for y in rest[0][2]):
+                    if len(rest) > 1 and is_digits(rest[1]):
+                        return True
+                if rest and is_digits(rest[0]):
+                    return False
+            if x[0] == "REPEAT":
+                r = scan(x[2])
+                if r is not None:
+                    return r
+        return None
+
+    return scan(flat(items))
+
+
 def rule_nomatch(ctx, prop: str) -> RuleResult:
     ix = ctx.ix
     res = RuleResult("NOMATCH")
@@ -219,7 +274,14 @@ def rule_nomatch(ctx, prop: str) -> RuleResult:
         res.add(Finding("NOMATCH", PM, ar.lineno, ar.qualname, "#n-countdown", "'#n' must count matches down by one and record exactly the match at which the counter is 0, then stop"))
     # regex for '#n'
     mp = ix.func(PM, "match_pattern")
-    pats = [n.value for n in mp.body_nodes() if isinstance(n, ast.Constant) and isinstance(n.value, str) and "#" in n.value and "\\d" in n.value]
+    pats = []
+    for n in mp.body_nodes():
+        if isinstance(n, ast.Constant) and isinstance(n.value, str) and "#" in n.value:
+            try:
+                if _space_after_hash(n.value) is not None:  # a literal `#` followed by digits
+                    pats.append(n.value)
+            except Exception:
+                pass
     res.instances += 1
     ok = len(pats) == 1
     res.ob(ok)
@@ -326,9 +388,42 @@ def rule_countgroup(ctx, prop: str) -> RuleResult:
                                 f"{f.qualname}: group {sub.slice.value} of `{rx}` {'does not exist' if lits is None else 'contains the `#` itself'}, and is {how}: the pattern becomes `... ##n`, "
                                 f"the occurrence selector is lost (Python reads the rest as a comment) and `'i j #1'` designates the FIRST matching loop nest")
                     )
+    # producer / consumer agreement on the `#n` suffix.  The shorthand forms (find_loop, find_alloc_or_arg,
+    # the name-count argument processors) accept `name # n` — white space between `#` and the digits — and
+    # hand the text on to match_pattern, whose own expression splits `<pattern> #<n>`.  If that expression
+    # does not allow the white space, `# 1` is not recognised, Python's tokenizer then reads it as a comment
+    # and the FIRST match is returned although the second was asked for.
+    space_after_hash = _space_after_hash
+
+    producers: List[Tuple[str, str, str, int]] = []
+    for mod_rel in (AS_, "src/exo/API.py"):
+        mm = ix.module(mod_rel)
+        for fn in [None] + [f for f in ix.all_funcs() if f.file == mod_rel]:
+            nodes = mm.tree.body if fn is None else fn.body_nodes()
+            for n in nodes:
+                if isinstance(n, ast.Assign) and len(n.targets) == 1 and isinstance(n.targets[0], ast.Name) and n.targets[0].id.endswith("_re") and isinstance(n.value, ast.Constant) and isinstance(n.value.value, str):
+                    if space_after_hash(n.value.value):
+                        producers.append((mod_rel, fn.qualname if fn else "<module>", n.value.value, n.lineno))
+    PM_ = "src/exo/frontend/pattern_match.py"
+    mp = ix.func(PM_, "match_pattern")
+    consumers = [k.args[0].value for k in mp.body_nodes() if isinstance(k, ast.Call) and dotted(k.func) in ("re.search", "re.match", "re.fullmatch") and k.args and isinstance(k.args[0], ast.Constant) and isinstance(k.args[0].value, str) and "#" in k.args[0].value]
+    if not consumers:
+        raise AnalysisError("anchor vanished: match_pattern no longer splits `<pattern> #<n>` with a regular expression")
+    if producers:
+        for rx in consumers:
+            res.instances += 1
+            res.nontrivial += 1
+            res.analysed.append(f"{PM_}:match_pattern")
+            ok = space_after_hash(rx) is True
+            res.ob(ok)
+            res.sample(f"match_pattern `{rx}` accepts the `# n` (white space) that {len(producers)} shorthand expressions let through: {ok}")
+            if not ok:
+                res.add(Finding("COUNTGROUP", PM_, mp.lineno, "match_pattern", "hash-space",
+                                f"the shorthand forms ({', '.join(sorted({q for _, q, _, _ in producers}))}) accept `name # n` with white space after `#` and pass it on, but match_pattern's `{rx}` "
+                                f"does not: `# 1` is then read as a Python comment and find_loop('i # 1') silently returns the FIRST loop"))
     if n_uses < 2:
         raise AnalysisError(f"COUNTGROUP: expected >= 2 uses of a count group in API_scheduling.py, found {n_uses}")
-    res.floor = 2
+    res.floor = 3
     return res
 
 
